@@ -241,6 +241,21 @@ func (rw *rewriter) file(f *ast.File) {
 					rw.hit("syncmaprange", "vrt")
 				}
 			}
+		case "sync.Pool":
+			// the pools of lib/query (scopes, key buffers, join records): Put and Get go through the shim, which can
+			// keep track of what sits in a pool
+			if inQuery {
+				switch {
+				case sel.Sel.Name == "Put" && len(call.Args) == 1:
+					call.Fun = &ast.SelectorExpr{X: ast.NewIdent("vrt"), Sel: ast.NewIdent("PoolPut")}
+					call.Args = []ast.Expr{addr(sel.X, recvT), call.Args[0]}
+					rw.hit("pool", "vrt")
+				case sel.Sel.Name == "Get" && len(call.Args) == 0:
+					call.Fun = &ast.SelectorExpr{X: ast.NewIdent("vrt"), Sel: ast.NewIdent("PoolGet")}
+					call.Args = []ast.Expr{addr(sel.X, recvT)}
+					rw.hit("pool", "vrt")
+				}
+			}
 		case "sync.WaitGroup":
 			if rw.rel == "lib/query/goroutine_manager.go" {
 				to := map[string]string{"Add": "WgAdd", "Done": "WgDone", "Wait": "WgWait"}[sel.Sel.Name]
